@@ -401,6 +401,9 @@ class LoopSpec(object):
         meta-theorem, DESIGN 2.4)."""
         self.invariant, self.types, self.label, self.extra_havoc, self.unroll = invariant, types or {}, label, extra_havoc, unroll
         self.delta = delta
+        self.on_exit = None          # callback(ls, iterations: z3 Int) when a stateless loop ran to exhaustion
+        self.ghost = ()              # names in interp.ghost (SInt counters of the contract) havocked with the loop
+        self.stop_after = False      # end the path when the loop exits (the contract covers the function up to here)
 
 
 class LoopState(object):
